@@ -306,10 +306,15 @@ pub(crate) fn eval_basic<'a>(
     expr: &'a TulispObject,
     result: &'a mut Option<TulispObject>,
 ) -> Result<(), Error> {
+    if expr.consp() {
+        // Do not keep the form borrowed while it is evaluated: the form may be
+        // reachable as data from its own arguments, and functions such as
+        // macroexpand annotate the lists they are given.
+        *result = Some(eval_form::<Eval>(ctx, expr).map_err(|e| e.with_trace(expr.clone()))?);
+        return Ok(());
+    }
     match &*expr.inner_ref() {
-        TulispValue::List { .. } => {
-            *result = Some(eval_form::<Eval>(ctx, expr).map_err(|e| e.with_trace(expr.clone()))?);
-        }
+        TulispValue::List { .. } => {}
         TulispValue::Symbol { value, .. } => {
             if value.is_constant() {
                 return Ok(());
